@@ -144,15 +144,9 @@ class GroupSim:
         if subs and subs[0] == "list":
             for s in subs[1]:
                 if s[0] == "obj":
-                    reg = s[1].fields.get("iqRegistry")
-                    if reg and reg[0] == "dict":
-                        for k, v in reg[1].items():
-                            if v[0] == "list" and len(v[1]) == 3:
-                                out.append((s[1].cls, v[1][0], v[1][1], v[1][2]))
-                            elif v[0] == "list" and len(v[1]) == 2 and v[1][1][0] == "list" and len(v[1][1][1]) == 3:
-                                # dynamic key: ("dyn", n) -> [key, (entity, ok, err)]
-                                t = v[1][1][1]
-                                out.append((s[1].cls, t[0], t[1], t[2]))
+                    from .layers import registry_entries
+                    for (req, okcb, errcb) in registry_entries(s[1].fields.get("iqRegistry")):
+                        out.append((s[1].cls, req, okcb, errcb))
         return out
 
     # ------------------------------------------------------------------ callbacks
